@@ -10,18 +10,22 @@ from collections import OrderedDict
 from common import hexs, unhexs, use_repo
 
 PROPERTY = 'C07'
-LEAN_MODULES = ['YatimlModel.Props.C07']
+LEAN_MODULES = ['YatimlModel.Props.C07', 'YatimlModel.Props.C07Parse']
 THEOREMS = ['YatimlModel.C07.' + t for t in [
     'C07_machine_refines_renderer', 'C07_emit_is_canonical_json', 'C07_same_data_all_indents',
     'C07_compact', 'C07_indent_shape', 'C07_alias_raises', 'C07_dumps_ascii',
-    'C07_dumps_valid_string', 'C07_numbers_are_json']]
+    'C07_dumps_valid_string', 'C07_numbers_are_json', 'C07_string_token_denotes',
+    'C07_rendered_text_parses', 'C07_emitted_text_is_json', 'C07_same_value_all_options',
+    'C07_number_texts_wf']]
 RULE = ('(a) every (top-of-stack state x event kind x indent x current indent) step of the real '
         'Dumper.emit_json against the model step (exhaustive over that finite domain); (b) every '
         'plain-data tree shape up to a node bound x indent in {None,0..8} x ensure_ascii, plus '
         'random trees with adversarial strings and values of fixed user classes: real dumps_json '
         'output vs the model machine run on the represented node tree, vs strict json.loads and the '
         'JSON projection, ASCII-only / no-whitespace / unescaped-non-ASCII / round-trip oracles; '
-        '(c) json.dumps vs the model string encoder on adversarial strings.  Non-trivial = the tree '
+        '(c) json.dumps vs the model string encoder on adversarial strings; (d) the RFC 8259 reference '
+        'parser the character-level theorems are stated against vs json.loads as a strict reader, on '
+        'every text produced, mutations of them and hand-written edge cases.  Non-trivial = the tree '
         'has at least one container, or the step writes something.')
 ASSUMPTIONS = [
     'PyYAML serializer emits Start/End events in tree order for a tree-shaped node (no aliases)',
@@ -277,6 +281,8 @@ def check_value(ctx, real, value, indents, loader=None, dumps=None, label='plain
                                    ensure_ascii=ea))
                 return
             outs.append((indent, ea, text))
+            if len(getattr(ctx, 'json_texts', ())) < 4000:
+                ctx.__dict__.setdefault('json_texts', []).append(text)
             inst, _ = (dumps.dumper(io.StringIO(), None, False, None, indent, None, not ea, None,
                                     None, None, None, None, None, False), None)
             node = inst.represent_data(value)
@@ -535,12 +541,110 @@ def explore_strings(ctx, real):
                                   valid=valid))
 
 
+def lean_list(codes):
+    return '[' + ', '.join(str(c) for c in codes) + ']'
+
+
+def show_json(v):
+    """Canonical one-line form of a parsed JSON value; the same format as `showJV` in the driver."""
+    if v is None:
+        return 'n'
+    if v is True:
+        return 't'
+    if v is False:
+        return 'f'
+    if isinstance(v, str):
+        return 's' + lean_list([ord(c) for c in v])
+    if isinstance(v, list):
+        return '[' + ''.join(show_json(x) + ';' for x in v) + ']'
+    if isinstance(v, tuple) and v[0] == '#':
+        return '#' + lean_list([ord(c) for c in v[1]])
+    if isinstance(v, tuple) and v[0] == '{':
+        return '{' + ''.join(show_json(k) + ':' + show_json(x) + ';' for k, x in v[1]) + '}'
+    raise TypeError(v)
+
+
+def python_reading(text):
+    """CPython's json.loads as an RFC 8259 reader: constants refused, numbers kept as their text,
+    members kept as an ordered list of pairs."""
+    def bad(c):
+        raise ValueError('non-finite constant ' + c)
+    try:
+        v = json.loads(text, parse_constant=bad, parse_float=lambda t: ('#', t),
+                       parse_int=lambda t: ('#', t), object_pairs_hook=lambda ps: ('{', ps))
+    except RecursionError:
+        return None
+    except ValueError:
+        return 'reject'
+    return 'ok ' + show_json(v)
+
+
+JSON_ALPHABET = list('[]{},:"\\ \n\t\rtruefalsn0123456789.-+eEu/') + ['\x01', '\x7f', '\xe9', '\u2028',
+                                                                 '\U0001f600', '\ud83d', '\ude00']
+
+
+def mutate_text(rng, text):
+    cs = list(text)
+    for _ in range(rng.choice((1, 1, 1, 2, 3))):
+        kind = rng.randrange(5)
+        i = rng.randrange(len(cs) + 1)
+        if kind == 0 and cs:
+            del cs[min(i, len(cs) - 1)]
+        elif kind == 1:
+            cs.insert(i, rng.choice(JSON_ALPHABET))
+        elif kind == 2 and cs:
+            j = min(i, len(cs) - 1)
+            cs.insert(j, cs[j])
+        elif kind == 3 and len(cs) > 1:
+            j = min(i, len(cs) - 2)
+            cs[j], cs[j + 1] = cs[j + 1], cs[j]
+        elif cs:
+            cs[min(i, len(cs) - 1)] = rng.choice(JSON_ALPHABET)
+    return ''.join(cs)
+
+
+HANDWRITTEN_JSON = [
+    '', ' ', 'null', ' true ', 'fals', 'nul', 'True', '[]', '[ ]', '{}', '{ }', '[1,]', '[,1]', '[1 2]', '{"a":1,}',
+    '{"a" 1}', '{a:1}', "{'a':1}", '{"a":1 "b":2}', '{"a":1,"a":2}', '[01]', '[-01]', '[1.]', '[.5]', '[1e]', '[1e+]',
+    '[1E+05]', '[-0]', '[-0.0e-0]', '-', '+1', '[1-2]', '1e5x', '0x10', 'NaN', 'Infinity', '-Infinity', '[1true]',
+    '"\\u12"', '"\\u123g"', '"\\uD83D\\uDE00"', '"\\ud83d"', '"\\ud83dx"', '"\\ud83d\\u0041"', '"\\ude00\\ud83d"',
+    '"\\ud83d\\ud83d\\ude00"', '"\\x41"', '"\\a"', '"\\/"', '"\t"', '"\x7f"', '"a\nb"', '"unterminated', '"a"b"',
+    '[[[[[[[[[[[[]]]]]]]]]]]]', '[[]', '[]]', '{"a":{"b":{"c":[{}]}}}', '\ufeff[]', '[]\ufeff', '\u00a0[]', '[\u2028]',
+    '[1,\n2,\r\n3\t, 4 ]', '{"k"\n:\n"v"}', '1 2', '"a" "b"', '[1],', '123456789012345678901234567890.5e-400',
+]
+
+
+def explore_parser(ctx, real):
+    """The RFC 8259 reference parser of Spec/JsonParse (the specification C07's character-level theorems
+    are stated against) vs CPython's json.loads used as a strict reader: on every text dumps_json
+    produced in this run, on mutations of those texts, and on a hand-written list of edge cases."""
+    texts = list(HANDWRITTEN_JSON)
+    produced = list(getattr(ctx, 'json_texts', []))
+    ctx.rng.shuffle(produced)
+    n = ctx.budget(600, 4000)
+    produced = produced[:n]
+    texts += produced
+    for t in produced:
+        for _ in range(2):
+            texts.append(mutate_text(ctx.rng, t))
+    readings = [python_reading(t) for t in texts]
+    pairs = [(t, r) for t, r in zip(texts, readings) if r is not None]
+    answers = ctx.driver(['jparse ' + hexs(t) for t, _ in pairs])
+    for (t, want), got in zip(pairs, answers):
+        ctx.count('parser_cases')
+        ctx.count('parser_' + ('accept' if want.startswith('ok') else 'reject'))
+        if got != want:
+            ctx.disagree('the RFC 8259 reference parser (Spec/JsonParse) and json.loads read a text differently',
+                         dict(text=t[:300], reference=got[:300], python=want[:300]))
+
+
 def explore(ctx):
     real = Real()
     explore_steps(ctx, real)
     explore_strings(ctx, real)
     explore_trees(ctx, real)
     sweetened_scalars(ctx, real.yaml, real.yatiml)
+    explore_parser(ctx, real)
 
 
 def sweetened_scalars(ctx, yaml, yatiml):
